@@ -90,14 +90,16 @@ def rule_length_coding(ctx):
             return NotImplemented
 
         res = norm.Resolver(ctx.program, fn.module, fn.cls)
+        roles = _assembly_names(ctx, fn)
+        nm_b1, nm_el = roles.get("header1", "b1"), roles.get("ext-length", "el")
         for base in (0, 128):
             v = Vec(n, res, attr, call)
             v.env[lv] = L
-            v.env["b1"] = np.full(n, base, dtype=object)
-            v.env["el"] = Opaque("el")
+            v.env[nm_b1] = np.full(n, base, dtype=object)
+            v.env[nm_el] = Opaque("el")
             packs.clear()
             v.run([chain])
-            b1 = v.env["b1"]
+            b1 = v.env[nm_b1]
             for k, l in enumerate(samples):
                 exp = None
                 for lo, hi, marker, fmt, extra in rfc6455.LENGTH_CODING:
@@ -171,11 +173,33 @@ def _assembly_role(fn, e):
     return norm.text(e)[:30]
 
 
+def _assembly_names(ctx, fn):
+    """role -> local name, read off the final b"".join([...]) of a frame encoder (the names the code happens to use are not assumed)."""
+    joins = [c for c in calls_in(fn.node) if isinstance(c.func, ast.Attribute) and c.func.attr == "join" and c.args and
+             isinstance(c.args[0], ast.List) and len(c.args[0].elts) >= 4]
+    ctx.require(len(joins) == 1, f"{fn.qualname}: frame assembly join not found")
+    out = {}
+    for e in joins[0].args[0].elts:
+        role = _assembly_role(fn, e)
+        nm = None
+        if isinstance(e, ast.Name):
+            nm = e.id
+        elif isinstance(e, ast.Call) and isinstance(e.func, ast.Attribute) and isinstance(e.func.value, ast.Name):
+            nm = e.func.value.id
+        elif isinstance(e, ast.Call) and e.args and isinstance(e.args[0], (ast.List, ast.Tuple)) and len(e.args[0].elts) == 1 and isinstance(e.args[0].elts[0], ast.Name):
+            nm = e.args[0].elts[0].id
+        if nm is not None:
+            out.setdefault(role, nm)
+    return out
+
+
 def rule_header_bits(ctx):
     ctx.rule("C01.2-header-bit-layout")
     # sendFrame: b0 from (fin, rsv, opcode)
     fn = ctx.program.func(f"{WSP}.sendFrame")
-    blk = _between(fn, lambda s: _is_assign(s, "b0", 0), lambda s: _is_assign(s, "b1", 0))
+    roles = _assembly_names(ctx, fn)
+    nm_b0, nm_b1 = roles.get("header0", "b0"), roles.get("header1", "b1")
+    blk = _between(fn, lambda s: _is_assign(s, nm_b0, 0), lambda s: _is_assign(s, nm_b1, 0))
     ctx.require(blk is not None, "sendFrame: b0 construction block not found")
     fin, rsv, opc = np.meshgrid(np.arange(2), np.arange(8), np.arange(16), indexing="ij")
     fin, rsv, opc = fin.ravel(), rsv.ravel(), opc.ravel()
@@ -183,7 +207,7 @@ def rule_header_bits(ctx):
     v = Vec(len(fin), res, lambda t, n, m: NotImplemented, lambda c, m, vv: NotImplemented)
     v.env.update({"fin": fin.astype(bool), "rsv": rsv.astype(np.int64), "opcode": opc.astype(np.int64)})
     v.run(blk)
-    b0 = v.env["b0"]
+    b0 = v.env[nm_b0]
     exp = (fin << 7) | (rsv << 4) | opc
     bad = b0 != exp
     ctx.ob("sendFrame: first octet = FIN<<7 | RSV<<4 | opcode (256 combinations)", not bad.any(),
@@ -206,8 +230,9 @@ def rule_header_bits(ctx):
     an = get_analysis(ctx)
     g, mf, res = an.get(fn)
     begin_const = ctx.program.class_const(ctx.program.cls(WSP), "SEND_STATE_MESSAGE_BEGIN")
+    nm_b0 = _assembly_names(ctx, fn).get("header0", "b0")
     for n in g.stmt_nodes():
-        if n.kind == "stmt" and isinstance(n.ast, ast.AugAssign) and isinstance(n.ast.target, ast.Name) and n.ast.target.id == "b0":
+        if n.kind == "stmt" and isinstance(n.ast, ast.AugAssign) and isinstance(n.ast.target, ast.Name) and n.ast.target.id == nm_b0:
             atbegin = ("eq", "self.send_state", ("c", begin_const), True) in mf.at(n)
             ctx.ob(f"beginMessageFrame: {stmt_key(n.ast)} only on the first frame of a message", atbegin,
                    "opcode / RSV bits set on a continuation frame of the streaming API", fn.loc(n.ast))
@@ -509,24 +534,31 @@ def rule_buffer_splits(ctx):
     for q in (f"{WSS}.processHandshake", f"{WSC}.processHandshake", f"{WSC}.processProxyConnect"):
         f2 = ctx.program.func(q)
         ctx.analysed(f2)
-        finds = [s for s in walk_no_defs(f2.node) if isinstance(s, ast.Assign) and norm.text(s.targets[0]) == "end_of_header"]
+        # the local holding the delimiter position is identified by what it is computed from (a search in self.data), not by its name
+        finds = [s for s in walk_no_defs(f2.node) if isinstance(s, ast.Assign) and len(s.targets) == 1 and isinstance(s.targets[0], ast.Name) and
+                 any(isinstance(c, ast.Call) and norm.text(c.func) in ("self.data.find", "self.data.index", "self.data.rfind") for c in ast.walk(s.value))]
+        # ... and by its use: it cuts self.data (the server also searches self.data for a flash policy request)
+        cutters = {x.id for sub in walk_no_defs(f2.node) if isinstance(sub, ast.Subscript) and norm.text(sub.value) == "self.data"
+                   for x in ast.walk(sub.slice) if isinstance(x, ast.Name)}
+        finds = [s for s in finds if s.targets[0].id in cutters]
         ctx.require(len(finds) == 1, f"{q}: end_of_header assignment not found")
         fc = finds[0].value
+        eoh = finds[0].targets[0].id
         ok = isinstance(fc, ast.Call) and norm.text(fc.func) == "self.data.find" and isinstance(fc.args[0], ast.Constant) and isinstance(fc.args[0].value, bytes)
         ctx.require(ok, f"{q}: end_of_header is not self.data.find(<bytes literal>)")
         delim = fc.args[0].value
         ctx.ob(f"{q}: header delimiter is CRLF CRLF", delim == b"\r\n\r\n", f"delimiter {delim!r}", f2.loc(finds[0]))
         stores = [s for s in walk_no_defs(f2.node) if isinstance(s, ast.Assign) and norm.text(s.targets[0]) == "self.data"]
         ctx.require(len(stores) == 1, f"{q}: expected exactly one hand-over store to self.data, found {len(stores)}")
-        want = f"self.data[end_of_header + {len(delim)}:]"
+        want = f"self.data[{eoh} + {len(delim)}:]"
         ctx.ob(f"{q}: remainder starts right after the delimiter", norm.text(stores[0].value) == want, f"self.data = {norm.text(stores[0].value)} (expected {want})", f2.loc(stores[0]))
         heads = [s for s in walk_no_defs(f2.node) if isinstance(s, (ast.Assign, ast.AnnAssign)) and isinstance(s.value, ast.Subscript)
                  and norm.text(s.value.value) == "self.data" and isinstance(s.value.slice, ast.Slice) and s.value.slice.lower is None]
-        okh = len(heads) == 1 and norm.text(heads[0].value) == f"self.data[:end_of_header + {len(delim)}]"
+        okh = len(heads) == 1 and norm.text(heads[0].value) == f"self.data[:{eoh} + {len(delim)}]"
         ctx.ob(f"{q}: parsed header is the prefix up to and including the delimiter", okh, "header slice changed", f2.loc())
         g2, mf2, res2 = an.get(f2)
         sn = [n for n in g2.stmt_nodes() if n.ast is stores[0]][0]
-        ctx.ob(f"{q}: hand-over only when the delimiter was found", ("lt", ("e", "end_of_header"), ("c", 0), False) in mf2.at(sn),
+        ctx.ob(f"{q}: hand-over only when the delimiter was found", ("lt", ("e", eoh), ("c", 0), False) in mf2.at(sn),
                "self.data advanced without `end_of_header >= 0`", f2.loc(stores[0]))
     # leftover octets are processed after the handshake completes
     for q, where in ((f"{WSS}.succeedHandshake", None), (f"{WSC}.processHandshake.<locals>.on_connect_success", None), (f"{WSC}.processProxyConnect", None)):
